@@ -3079,10 +3079,16 @@ def run(ctx):   # noqa: F811
     guarded(ctx, "mhn-stream", c05_mhn.run_mhn_stream, ctx, cuqi, th, sys.modules[__name__])
     from harness.props import c05_gmrf
     guarded(ctx, "gmrf-large", c05_gmrf.run_gmrf_large, ctx, cuqi, th, sys.modules[__name__])
-    from harness.props import c05_single
-    guarded(ctx, "single-draw", c05_single.run_single, ctx, cuqi, th, sys.modules[__name__])
-    from harness.props import c05_callforms
-    guarded(ctx, "call-forms", c05_callforms.run_call_forms, ctx, cuqi, th, sys.modules[__name__])
+    from harness.props import c05_single, c05_callforms
+
+    def _single_and_callforms():
+        me = sys.modules[__name__]
+        l1, st1 = c05_single.prepare(ctx, cuqi, th, me)
+        l2, st2 = c05_callforms.prepare(ctx, cuqi, th, me)
+        outs = ctx.lean.drive(l1 + l2)          # one driver start for both streams
+        c05_single.finish(ctx, cuqi, me, st1, outs[:len(l1)])
+        c05_callforms.finish(ctx, cuqi, me, st2, outs[len(l1):])
+    guarded(ctx, "single-draw+call-forms", _single_and_callforms)
     # G8: every sample object returned during the whole run still holds the numbers it held when it was returned
     bad = 0
     for (obj, copy, what) in RETAINED:
